@@ -461,3 +461,84 @@ pub fn replay(o: &Opts, parts: &[&str]) -> i32 {
         1
     }
 }
+
+// ---------------------------------------------------------------------------------------------
+// Real-executor smoke test (thorough tier of C16): evidence that the mock executor is not lying
+// about the Nurse/Timer contracts. Wall-clock tolerant: only "0,1,2,... consecutive from 0",
+// independence of two subscriptions and silence after disposal are looked at, never tick counts.
+// ---------------------------------------------------------------------------------------------
+
+pub fn real_executor_smoke(rep: &mut Report) {
+    use async_executors::AsyncStd;
+    use async_nursery::Nursery;
+    use callbag::Message;
+    use std::sync::Mutex;
+    type Log = Arc<Mutex<Vec<String>>>;
+    type Tb = Arc<Mutex<Option<Arc<callbag::Source<usize>>>>>;
+    fn sink(log: &Log, tb: &Tb) -> Arc<callbag::Sink<usize>> {
+        let log = Arc::clone(log);
+        let tb = Arc::clone(tb);
+        Arc::new(
+            (move |m: Message<usize, never::Never>| match m {
+                Message::Handshake(t) => {
+                    *tb.lock().unwrap() = Some(t);
+                    log.lock().unwrap().push("H".into());
+                },
+                Message::Data(d) => log.lock().unwrap().push(format!("{}", d)),
+                Message::Terminate => log.lock().unwrap().push("T".into()),
+                Message::Error(_) => log.lock().unwrap().push("E".into()),
+                Message::Pull => {},
+            })
+            .into(),
+        )
+    }
+    let (nursery, nursery_out) = Nursery::new(AsyncStd);
+    let src: Src<usize> = Arc::new(callbag::interval(Duration::from_millis(5), nursery.clone()));
+    let (la, ta): (Log, Tb) = (Arc::new(Mutex::new(vec![])), Arc::new(Mutex::new(None)));
+    let (lb, tb): (Log, Tb) = (Arc::new(Mutex::new(vec![])), Arc::new(Mutex::new(None)));
+    src(Message::Handshake(sink(&la, &ta)));
+    std::thread::sleep(Duration::from_millis(60));
+    src(Message::Handshake(sink(&lb, &tb)));
+    std::thread::sleep(Duration::from_millis(60));
+    if let Some(t) = ta.lock().unwrap().clone() {
+        t(Message::Terminate);
+    }
+    std::thread::sleep(Duration::from_millis(40));
+    let a_after_dispose = la.lock().unwrap().len();
+    std::thread::sleep(Duration::from_millis(60));
+    if let Some(t) = tb.lock().unwrap().clone() {
+        t(Message::Terminate);
+    }
+    std::thread::sleep(Duration::from_millis(40));
+    let a_final = la.lock().unwrap().clone();
+    let b_final = lb.lock().unwrap().clone();
+    drop(src);
+    drop(nursery);
+    let joined = async_std::task::block_on(async_std::future::timeout(Duration::from_secs(5), nursery_out)).is_ok();
+    let consecutive = |l: &Vec<String>| -> bool {
+        let nums: Vec<usize> = l.iter().filter_map(|x| x.parse().ok()).collect();
+        nums.iter().enumerate().all(|(i, v)| *v == i)
+    };
+    let mut problems = vec![];
+    if !consecutive(&a_final) {
+        problems.push(format!("first subscription did not receive 0,1,2,...: {:?}", a_final));
+    }
+    if !consecutive(&b_final) {
+        problems.push(format!("second subscription did not count from 0 on its own: {:?}", b_final));
+    }
+    if a_final.len() != a_after_dispose {
+        problems.push(format!("first subscription received {} messages after its disposal had been visible for 8 periods", a_final.len() - a_after_dispose));
+    }
+    rep.evaluations += 1;
+    rep.bump("interval.real-executor-smoke-runs", 1);
+    let summary = J::obj()
+        .set("executor", J::s("async-std (AsyncStd + Nursery), period 5 ms"))
+        .set("first_subscription", J::s(&a_final.join(" ")))
+        .set("second_subscription", J::s(&b_final.join(" ")))
+        .set("tasks_ended_within_5s_of_disposal", J::Bool(joined))
+        .set("problems", J::arr(problems.iter().map(|p| J::s(p))));
+    if !problems.is_empty() {
+        rep.add_violation("C16", "interval/real-executor-smoke", &problems.join("; "), "E3r:smoke", summary.clone());
+    }
+    rep.extra.push(("real_executor_smoke".into(), summary));
+}
